@@ -91,6 +91,33 @@ def run(rep, tier, seed):
         o = case_compress(b, pd, rule, None, klass='field-compress:' + kind)
         if o[0] == 'OK':
             case_decompress(b, o[1], rule, None, klass='field-roundtrip:' + kind, expect=''.join(vals) + payload, side=rnd.choice([L, R]))
+    # the announcement as the LAST residue of the packet (nothing sent after it: empty payload, following fields elided) at every
+    # size around the width changes: a decoder that reads ahead of the announcement sees fewer bits than it expects
+    for n in [0, 1, 13, 14, 15, 16, 17, 27, 28, 29, 253, 254, 255, 256, 257, 300]:
+        for kind in ('vs', 'lsb'):
+            for trail in ('none', 'ns', 'ns2', 'map0'):
+                v = randbits(rnd, n)
+                if kind == 'vs':
+                    fd = RuleFieldDescriptor('X:v', 0, 0, DI.BIDIRECTIONAL, Buffer(b'', 0), MO.IGNORE, CDA.VALUE_SENT)
+                else:
+                    fd = RuleFieldDescriptor('X:v', 0, 0, DI.BIDIRECTIONAL, mk(v[:n // 3], rnd.choice([L, R])), MO.MSB, CDA.LSB)
+                fds, vals = [fd], [v]
+                if trail in ('ns', 'ns2'):
+                    for j in range(1 if trail == 'ns' else 2):
+                        t = randbits(rnd, rnd.choice([1, 8, 13]))
+                        fds.append(RuleFieldDescriptor('X:t%d' % j, len(t), 0, DI.BIDIRECTIONAL, mk(t, rnd.choice([L, R])), MO.EQUAL, CDA.NOT_SENT))
+                        vals.append(t)
+                elif trail == 'map0':
+                    from microschc.rfc8724 import MatchMapping
+                    t = randbits(rnd, 6)
+                    fds.append(RuleFieldDescriptor('X:t', 6, 0, DI.BIDIRECTIONAL, MatchMapping({mk(t): mk('')}), MO.MATCH_MAPPING, CDA.MAPPING_SENT))
+                    vals.append(t)
+                rule = RuleDescriptor(id=mk(randbits(rnd, rnd.randint(1, 9)), rnd.choice([L, R])), field_descriptors=fds)
+                pd = synth_pdesc(rule, vals, '')
+                o = case_compress(b, pd, rule, None, klass='last-residue-compress:' + kind)
+                if o[0] == 'OK':
+                    for side in (L, R):
+                        case_decompress(b, o[1], rule, None, klass='last-residue-roundtrip:' + kind, expect=''.join(vals), side=side)
     b.run()
 
 
